@@ -5,7 +5,7 @@ HERE = os.path.dirname(os.path.dirname(os.path.abspath(__file__)))
 sys.path.insert(0, HERE)
 from tools.manifest_table import CHECKS, PENDING, NOT_APPLICABLE
 
-WIDENED = (" The enumerated scope was widened after six rounds of independently seeded property-breaking changes (integer / "
+WIDENED = (" The enumerated scope was widened after eight rounds of independently seeded property-breaking changes (integer / "
            "boolean storage dtypes, numpy-scalar and list/tuple argument forms, order >= 4 and empty operands, C-ordered and grown "
            "buffers, repeated calls on the same object, depth-2 histories 'write into a result / edit the data object, then "
            "call again', value patterns such as cancelling duplicates, exact zeros and mixed signs); the exact bounds of the committed version are the module's BOUNDS "
